@@ -72,6 +72,8 @@ type Veto struct {
 	Store string
 	ID    string
 	Type  string
+	// NotFoundTyped: the refusal is a not-found error (a constraint that could not find something it needs)
+	NotFoundTyped bool
 }
 
 func (v *Veto) Arm(store, id, typ string) {
@@ -136,6 +138,9 @@ type recConstraint struct {
 func (c *recConstraint) ProcessPreCommit(state boltz.UntypedEntityChangeState) error {
 	typ := changeTypeName(state.GetChangeType())
 	if c.veto != nil && c.veto.matches(c.store, state.GetEntityId(), typ) {
+		if c.veto.NotFoundTyped {
+			return boltz.NewNotFoundError("prerequisite of "+c.store, "id", state.GetEntityId())
+		}
 		return fmt.Errorf("veto: %s of %s/%s refused by constraint", typ, c.store, state.GetEntityId())
 	}
 	return nil
